@@ -265,7 +265,7 @@ func TestVerifC01Remote(t *testing.T) {
 	port := vsmtp.FreePort()
 	if ops := vh.Replay(); ops != nil {
 		for _, op := range ops {
-			if strings.HasPrefix(op, "C01 outcomes") {
+			if strings.HasPrefix(op, "C01 outcomes") && !strings.Contains(op, "# lmtp ") {
 				c01rRun(t, out, op, port)
 			}
 		}
